@@ -57,6 +57,8 @@ struct CpcFam {
   static void mutate(Obj& o, const Cfg& c, Rng& r, Arena*) { feed(o, c, r); }
   static std::string readout(const Obj& o, const Cfg&) { return cpc_readout(o); }
   static void query(const Obj& o, const Cfg&, Rng&) { (void)o.get_lower_bound(1); (void)o.get_upper_bound(3); auto s = o.to_string(); (void)s.size(); }
+  static const bool SINGLE_INSTANCE = true;
+  static Arena* arena_of(const Obj& o) { return o.get_allocator().arena; }
   static const bool HAS_MERGE_REF = false, HAS_MERGE_MOVE = false, HAS_RESET = false, HAS_ROUNDTRIP = true;
   static void merge_ref(Obj&, const Obj&, const Cfg&) {}
   static void merge_move(Obj&, Obj&&, const Cfg&) {}
@@ -88,9 +90,9 @@ struct CpcUnionFam {
     }
     Cpc s(static_cast<uint8_t>(r.chance(0.6) ? (r.coin() ? c.lg_k1 : c.lg_k2) : r.range(4, 11)), c.seed, A(scratch));
     feed(s, c, r);
-    if (r.coin()) { o.update(s); xcount("cpc_union.merge_ref"); }
+    if (r.coin()) { { OperandWatch w(scratch, false, "union-update"); o.update(s); } xcount("cpc_union.merge_ref"); }
     else {
-      o.update(std::move(s)); xcount("cpc_union.merge_move");
+      { OperandWatch w(scratch, true, "union-update"); o.update(std::move(s)); } xcount("cpc_union.merge_move");
       if (r.coin()) {   // the consumed sketch must remain assignable and usable
         Cpc live(static_cast<uint8_t>(r.coin() ? c.lg_k1 : r.range(4, 11)), r.coin() ? c.seed : c.seed2, A(scratch));
         feed(live, c, r);
@@ -100,6 +102,7 @@ struct CpcUnionFam {
   }
   static std::string readout(const Obj& o, const Cfg&) { Cpc res = o.get_result(); return cpc_readout(res); }
   static void query(const Obj& o, const Cfg&, Rng&) { Cpc res = o.get_result(); (void)res.get_estimate(); }
+  static Arena* arena_of(const Obj& o) { return o.bit_matrix.get_allocator().arena; }   // the union's own allocator (private member)
   static const bool HAS_MERGE_REF = false, HAS_MERGE_MOVE = false, HAS_RESET = false, HAS_ROUNDTRIP = false;
   static void merge_ref(Obj&, const Obj&, const Cfg&) {}
   static void merge_move(Obj&, Obj&&, const Cfg&) {}
